@@ -1,8 +1,196 @@
 import Req.Driver.Proto
-/-! Driver lanes of C06. -/
-namespace Req.Driver.L.C06
-open Req.Proto
+import Req.H2.Flow
+import Req.H2.Conn
+import Req.H2.Monitor
+/-!
+Driver lanes of C06.
 
-def lanes : List (String × (List String → String)) := []
+* `c06flow <fn> <ints…>` — the hand model of flow.go / frameScratchBufferLen / awaitFlowControl's
+  take on one argument tuple.
+* `c06script <fixes> <strict> <settings> <connFlow> <prio> <hdrPrio> <maxHeaderList> <ops>` —
+  the connection model run on a script (pumped after every operation); answer = the frames
+  emitted per operation.
+* `c06monitor <events>` — the strict-peer monitor on a recorded history.
+-/
+namespace Req.Driver.L.C06
+open Req.Proto Req.H2 Req.H2.Flow Req.H2.Conn
+
+def ints (args : List String) : Option (List Int) := args.mapM String.toInt?
+
+def showBool (b : Bool) : String := if b then "1" else "0"
+
+def laneFlow : List String → String
+  | fn :: args =>
+    match fn, ints args with
+    | "iadd", some [a, u, n] =>
+      match Inflow.add ⟨a, u⟩ n with
+      | .panic => "panic"
+      | .ok (f, s) => s!"{f.avail} {f.unsent} {s}"
+    | "itake", some [a, u, n] =>
+      let (f, ok) := Inflow.take ⟨a, u⟩ n
+      s!"{f.avail} {f.unsent} {showBool ok}"
+    | "itakes", some [a1, u1, a2, u2, n] =>
+      let (f1, f2, ok) := takeInflows ⟨a1, u1⟩ ⟨a2, u2⟩ n
+      s!"{f1.avail} {f1.unsent} {f2.avail} {f2.unsent} {showBool ok}"
+    | "oavail", some [n, hc, cn] => s!"{Outflow.available ⟨n, hc != 0, cn⟩}"
+    | "otake", some [n, hc, cn, k] =>
+      match Outflow.take ⟨n, hc != 0, cn⟩ k with
+      | .panic => "panic"
+      | .ok f => s!"{f.n} {f.conn_n}"
+    | "oadd", some [n, k] =>
+      let (f, ok) := Outflow.add ⟨n, false, 0⟩ k
+      s!"{f.n} {showBool ok}"
+    | "scratch", some [cl, mf] => s!"{scratchLen cl mf}"
+    | "await", some [a, mb, mf] => s!"{awaitTake a mb mf}"
+    | _, _ => "bad-op"
+  | _ => "bad-op"
+
+/-! ### script parsing -/
+
+def splitNonEmpty (s : String) (sep : String) : List String :=
+  if s == "-" || s == "" then [] else s.splitOn sep
+
+def parsePair (s : String) : Option (Nat × Nat) :=
+  match s.splitOn "=" with
+  | [a, b] => do
+    let x ← a.toNat?
+    let y ← b.toNat?
+    pure (x, y)
+  | _ => none
+
+def parsePairs (s : String) : Option (List (Nat × Nat)) :=
+  (splitNonEmpty s "/").mapM parsePair
+
+def parseNats (s : String) : Option (List Nat) := (splitNonEmpty s ",").mapM String.toNat?
+
+def parseFixes (s : String) : Option Fixes :=
+  match s.toList with
+  | [a, b, c, d] => some ⟨a == '1', b == '1', c == '1', d == '1'⟩
+  | _ => none
+
+def parseOp (s : String) : Option Op :=
+  match s.splitOn ":" with
+  | ["o", h, b, k] => do pure (.openStream (← h.toNat?) (← b.toNat?) (k == "1"))
+  | ["f", id, n] => do pure (.feed (← id.toNat?) (← n.toNat?))
+  | ["w", id] => do pure (.write (← id.toNat?))
+  | ["c", id] => do pure (.cancel (← id.toNat?))
+  | ["r", id, n] => do pure (.read (← id.toNat?) (← n.toNat?))
+  | ["x", id] => do pure (.close (← id.toNat?))
+  | ["ps", vals] => do pure (.peer (.settings (← parsePairs vals)))
+  | ["pa"] => some (.peer .settingsAck)
+  | ["pw", id, inc] => do pure (.peer (.windowUpdate (← id.toNat?) (← inc.toNat?)))
+  | ["pr", id, code] => do pure (.peer (.rst (← id.toNat?) (← code.toNat?)))
+  | ["pg", last] => do pure (.peer (.goaway (← last.toNat?)))
+  | ["ph", id, e] => do pure (.peer (.headers (← id.toNat?) (e == "1")))
+  | ["pd", id, len, pad, e] => do
+    pure (.peer (.data (← id.toNat?) (← len.toNat?) (← pad.toNat?) (e == "1")))
+  | _ => none
+
+def parseOps (s : String) : Option (List Op) := (splitNonEmpty s ";").mapM parseOp
+
+def flag (b : Bool) (c : String) : String := if b then c else "-"
+
+def showFrame : Frame → String
+  | .settings vals => "S" ++ "/".intercalate (vals.map fun p => s!"{p.1}={p.2}")
+  | .settingsAck => "A"
+  | .windowUpdate id inc => s!"W{id}+{inc}"
+  | .priority id => s!"P{id}"
+  | .headers id len e h => s!"H{id}:{len}:{flag e "e"}{flag h "h"}"
+  | .continuation id len h => s!"C{id}:{len}:{flag h "h"}"
+  | .data id len e => s!"D{id}:{len}:{flag e "e"}"
+  | .rst id => s!"R{id}"
+
+def frameStream : Frame → Nat
+  | .settings _ => 0
+  | .settingsAck => 0
+  | .windowUpdate id _ => id
+  | .priority id => id
+  | .headers id _ _ _ => id
+  | .continuation id _ _ => id
+  | .data id _ _ => id
+  | .rst id => id
+
+/-- stable insertion by stream id: frames of one stream keep their order; the order between
+streams is not compared (different goroutines write them) -/
+def insertByStream (x : Frame) : List Frame → List Frame
+  | [] => [x]
+  | y :: ys => if frameStream x < frameStream y then x :: y :: ys else y :: insertByStream x ys
+
+def sortByStream (l : List Frame) : List Frame := l.foldl (fun acc x => insertByStream x acc) []
+
+def showStep (r : List Frame × Bool × Bool) : String :=
+  let fs := (sortByStream r.1).map showFrame
+  let body := if fs.isEmpty then "-" else ",".intercalate fs
+  body ++ (if r.2.1 then ",X" else "") ++ (if r.2.2 then ",P" else "")
+
+def laneScript : List String → String
+  | [fx, strict, settings, connFlow, prio, hdrPrio, mhl, ops] =>
+    match parseFixes fx, parsePairs settings, connFlow.toNat?, parseNats prio, mhl.toNat?, parseOps ops with
+    | some fx, some settings, some connFlow, some prio, some mhl, some ops =>
+      let cfg : Cfg := { settings := settings, connFlow := connFlow, prio := prio, hdrPrio := hdrPrio == "1",
+                         maxHeaderList := mhl, strict := strict == "1", fixes := fx }
+      let (st, pre) := newConn cfg
+      let steps := scriptRun st ops
+      ";".intercalate (((pre.map showFrame) |> fun l => ",".intercalate l) :: steps.map showStep)
+    | _, _, _, _, _, _ => "bad-op"
+  | _ => "bad-op"
+
+/-! ### monitor lane: events are the frame renderings above, peer frames prefixed with `<` -/
+
+def parseBoolFlag (s : String) (c : Char) : Bool := s.toList.contains c
+
+def parseFrame (s : String) : Option Frame :=
+  match s.toList with
+  | 'S' :: rest => do pure (.settings (← parsePairs (if rest.isEmpty then "-" else String.ofList rest)))
+  | ['A'] => some .settingsAck
+  | 'W' :: rest =>
+    match (String.ofList rest).splitOn "+" with
+    | [id, inc] => do pure (.windowUpdate (← id.toNat?) (← inc.toInt?))
+    | _ => none
+  | 'P' :: rest => do pure (.priority (← (String.ofList rest).toNat?))
+  | 'H' :: rest =>
+    match (String.ofList rest).splitOn ":" with
+    | [id, len, fl] => do pure (.headers (← id.toNat?) (← len.toNat?) (parseBoolFlag fl 'e') (parseBoolFlag fl 'h'))
+    | _ => none
+  | 'C' :: rest =>
+    match (String.ofList rest).splitOn ":" with
+    | [id, len, fl] => do pure (.continuation (← id.toNat?) (← len.toNat?) (parseBoolFlag fl 'h'))
+    | _ => none
+  | 'D' :: rest =>
+    match (String.ofList rest).splitOn ":" with
+    | [id, len, fl] => do pure (.data (← id.toNat?) (← len.toNat?) (parseBoolFlag fl 'e'))
+    | _ => none
+  | 'R' :: rest => do pure (.rst (← (String.ofList rest).toNat?))
+  | _ => none
+
+def parseEvent (s : String) : Option Event :=
+  match s.toList with
+  | '<' :: rest =>
+    match parseOp ("p" ++ String.ofList rest) with
+    | some (.peer f) => some (.p f)
+    | _ => none
+  | _ => (parseFrame s).map Event.c
+
+def laneMonitor : List String → String
+  | [consumed, events] =>
+    match (splitNonEmpty events ";").mapM parseEvent with
+    | some evs => if consumed == "1" then Monitor.verdictConsumed evs else Monitor.verdict evs
+    | none => "bad-op"
+  | _ => "bad-op"
+
+/-- the race-tolerant reading (classification of the known finding `c06-settings-ack-race`) -/
+def laneMonitorTolerant : List String → String
+  | [consumed, events] =>
+    match (splitNonEmpty events ";").mapM parseEvent with
+    | some evs => Monitor.verdictTolerant evs (consumed == "1")
+    | none => "bad-op"
+  | _ => "bad-op"
+
+def lanes : List (String × (List String → String)) := [
+  ("c06flow", laneFlow),
+  ("c06script", laneScript),
+  ("c06monitor", laneMonitor),
+  ("c06monitortol", laneMonitorTolerant)
+]
 
 end Req.Driver.L.C06
